@@ -67,11 +67,21 @@ func vfPeerReadClientHello(c *Conn) (*clientHelloMsg, error) {
 }
 
 // vfPeerHelloExchange sends the ClientHello, answers HelloVerifyRequest, returns the ServerHello.
-func vfPeerHelloExchange(c *Conn, hello *clientHelloMsg) (*serverHelloMsg, error) {
+func vfPeerHelloExchange(c *Conn, hello *clientHelloMsg, mut func([]byte) []byte) (*serverHelloMsg, error) {
 	for i := 0; i < 4; i++ {
 		hello.raw = nil
 		vfPeerSeq(c, hello)
-		if _, err := c.writeHandshakeRecord(hello, nil); err != nil {
+		var m handshakeMessage = hello
+		if mut != nil && len(hello.cookie) > 0 {
+			data, err := hello.marshal()
+			if err != nil {
+				return nil, err
+			}
+			raw := &vfRaw{typ: typeClientHello, body: mut(append([]byte(nil), data[12:]...)), seq: hello.getMessageSeq()}
+			hello.raw, _ = raw.marshal()
+			m = raw
+		}
+		if _, err := c.writeHandshakeRecord(m, nil); err != nil {
 			return nil, err
 		}
 		if _, err := c.flush(); err != nil {
@@ -117,6 +127,7 @@ type vfVsPeer struct {
 	UPanic, PPanic string
 	Stalled        bool
 	UHung          bool
+	Watchdog       bool
 	RunErr         error
 	U              *Conn
 	UState         ConnectionState
@@ -152,7 +163,13 @@ func vfRunVsPeer(underTestIsClient bool, ucfg, pcfg *Config, peer func(pc *Conn)
 		defer sim.ends[pi].markDone()
 		r.PPanic = vfRecover(func() { r.PErr = peer(pc) })
 	}()
+	wd := time.AfterFunc(30*time.Second, func() {
+		r.Watchdog = true
+		sim.ends[0].Close()
+		sim.ends[1].Close()
+	})
 	r.RunErr = sim.run(120 * time.Second)
+	wd.Stop()
 	if r.RunErr != nil {
 		r.Stalled = true
 		sim.mu.Lock()
@@ -185,4 +202,44 @@ func vfPeerPending(pc *Conn) bool {
 func vfPeerTuneConfig(cfg *Config) {
 	cfg.InitialRetransmitTimeout = 16 * time.Second
 	cfg.MaxRetransmitTimeout = 64 * time.Second
+}
+
+// vfConnBuffered: bytes the connection currently buffers on behalf of the peer.
+func vfConnBuffered(c *Conn) int {
+	n := c.handBuf.Len() + len(c.rawInputBuf)
+	for _, fb := range c.pendingFragments {
+		n += len(fb.data)
+	}
+	return n
+}
+
+const vfConnBufBound = 2*(65536+12) + 2*(16384+2048+13)
+
+// vfPeerWriteOne writes exactly one record, also for an empty payload.
+func vfPeerWriteOne(c *Conn, typ recordType, data []byte) error {
+	c.out.Lock()
+	defer c.out.Unlock()
+	outBuf := make([]byte, recordHeaderLen, recordHeaderLen+len(data)+128)
+	c.setWriteSeq()
+	vers := c.vers
+	if vers == 0 {
+		vers = VersionTLCP
+	}
+	outBuf[0], outBuf[1], outBuf[2] = byte(typ), byte(vers>>8), byte(vers)
+	outBuf[3], outBuf[4] = byte(c.writeEpoch>>8), byte(c.writeEpoch)
+	outBuf[5], outBuf[6], outBuf[7] = byte(c.writeSeq>>40), byte(c.writeSeq>>32), byte(c.writeSeq>>24)
+	outBuf[8], outBuf[9], outBuf[10] = byte(c.writeSeq>>16), byte(c.writeSeq>>8), byte(c.writeSeq)
+	outBuf[11], outBuf[12] = byte(len(data)>>8), byte(len(data))
+	outBuf, err := c.out.encrypt(outBuf, data, c.config.rand())
+	if err != nil {
+		return err
+	}
+	n := len(outBuf) - recordHeaderLen
+	outBuf[11], outBuf[12] = byte(n>>8), byte(n)
+	c.writeSeq++
+	if _, err := c.write(outBuf); err != nil {
+		return err
+	}
+	_, err = c.flush()
+	return err
 }
